@@ -362,6 +362,25 @@ def native_outcomes(root, fns, runs, race):
     return out, races
 
 
+def explore_each(text, op, names, budget_s=150):
+    """One driver session per function, eight at a time: [load reply] + one reply per function.  A function whose exploration does not
+    finish within the budget answers `outcomes 0 1` (truncated: no verdict for it) instead of failing the whole check — a mistranslated
+    program can have a state space the explorer does not finish."""
+    import concurrent.futures
+
+    def one(n):
+        try:
+            r = k4.gl_session(text, ["%s %s" % (op, n)], timeout=budget_s)
+            return r[0], r[1]
+        except subprocess.TimeoutExpired:
+            return "ok", "outcomes 0 1"
+    if not names:
+        return [k4.gl_session(text, [])[0]]
+    with concurrent.futures.ThreadPoolExecutor(max_workers=8) as ex:
+        res = list(ex.map(one, names))
+    return [res[0][0]] + [r[1] for r in res]
+
+
 def check(ctx, build=None):
     if build is None:
         build = C.ensure_built("C03", ["guards"], need_harness=False, extra_go=gomod.EXTRA_GO)
@@ -414,11 +433,11 @@ def check(ctx, build=None):
                 viol("C03: the race detector reports a data race in a program whose shared accesses are all protected by the Go-side primitives",
                      {"proto": "c03", "seed": seed, "package": src}, "no data race", races_r[0][:2500])
                 continue
-            reps = k4.gl_session(text, ["explore " + f[0] for f in fns])
+            reps = explore_each(text, "explore", [f[0] for f in fns])
             # Go's sync.Cond never wakes a waiter without Signal/Broadcast: under that reading too the emitted program of a
             # schedule-independent Go program must have no deadlock (templates that wait with Cond.Wait only)
             strict_fns = [f for f in fns if f[3] and "cond.Wait()" in f[2] and "WaitTimeout" not in f[2]]
-            strict = dict(zip([f[0] for f in strict_fns], k4.gl_session(text, ["explore-strict " + f[0] for f in strict_fns])[1:])) if strict_fns else {}
+            strict = dict(zip([f[0] for f in strict_fns], explore_each(text, "explore-strict", [f[0] for f in strict_fns])[1:])) if strict_fns else {}
             if reps[0].startswith("parse-error"):
                 viol("C03: emitted file cannot be read back", {"proto": "c03", "seed": seed}, "well-formed", k4.unhex(reps[0]))
                 continue
